@@ -32,7 +32,7 @@ var c01Spellings = []enum.Spelling{
 	{Unit: "  ", Bullets: []byte("-"), Heading: true},
 }
 
-var hostileNames = []string{"a", "- x", "*", "é日本", " a", "a ", "a-b", "+x*", "#h", "a  b", "└── x", "│   y", "a\tb"} // incl. names that look like branches
+var hostileNames = []string{"a", "- x", "*", "é日本", " a", "a ", "a-b", "+x*", "#h", "a  b", "└── x", "│   y", "a\tb", "100%d", "<&>\"", "p ├── └── q", "C#"} // incl. names that look like branches, format verbs, markup
 
 type c01Replay struct {
 	Kind  string     `json:"kind"`
@@ -182,6 +182,33 @@ func init() {
 			c.Inc("size_family_cases")
 			c01One(c, []int{1, 2, 3, 2}, []string{"r", long, "k", long + "2"}, c01Spellings[0], fmtTuples[0])
 			c01One(c, []int{1, 2}, []string{long, "k"}, c01Spellings[1], fmtTuples[1])
+		}
+		// Part 1d: documents whose total size crosses typical buffer sizes, with a root line starting exactly at, just
+		// before and just after the boundary (simple mode; the massive counterpart is C10's bigdoc part)
+		for _, B := range []int{512, 4096, 65536, 1 << 20} {
+			for _, shift := range []int{-1, 0, 1} {
+				if !c.Take() || c.Expired() {
+					continue
+				}
+				for _, v := range []struct {
+					unit string
+					crlf bool
+				}{{"\t", false}, {"  ", true}} {
+					doc := alignedDoc(B, shift, v.unit, v.crlf)
+					sp := model.ParseSpec(doc)
+					if sp.Verdict != model.WellFormed {
+						continue
+					}
+					want := model.Render(model.Merge(sp.Forest), model.DefaultFmt)
+					got, err, pan := sut.Output(doc)
+					c.Eval()
+					c.StateN(1)
+					c.Inc("boundary_aligned_documents")
+					if pan != "" || err != nil || got != want {
+						c.Violation("C01|wrong-drawing|big-document", fmt.Sprintf("document of %d bytes with a root line at offset %d (unit %q crlf=%v): err=%v panic=%q, output differs from the model (%d vs %d bytes)", len(doc), B+shift, v.unit, v.crlf, err, pan, len(got), len(want)), B, nil)
+					}
+				}
+			}
 		}
 		// Part 2: hostile one-line names (bullet spellings only: a heading trims blanks)
 		for n := 1; n <= maxH && !c.Expired(); n++ {
